@@ -521,6 +521,18 @@ class _FuncAnalysis:
                 return True
             if a.id in ("op_func", "op", "fn"):
                 return True          # forwarded dispatch parameter (resolved at ITS call sites)
+        if isinstance(a, ast.Call) and isinstance(a.func, ast.Name) and not a.keywords:
+            # an operator made by a package factory, e.g. _reflected(operator.sub): the factory returns a local function whose
+            # every return is a call of the factory's own (callable) parameter - its result is what that callable returns
+            fac = self.prog.functions.get(f"{self.f.module}.{a.func.id}")
+            if fac is not None and isinstance(fac.node, ast.FunctionDef) and len(fac.params) == len(a.args):
+                inner = [n for n in fac.node.body if isinstance(n, ast.FunctionDef)]
+                rets = [n for n in fac.node.body if isinstance(n, ast.Return)]
+                if len(inner) == 1 and len(rets) == 1 and isinstance(rets[0].value, ast.Name) and rets[0].value.id == inner[0].name:
+                    irets = [n for n in ast.walk(inner[0]) if isinstance(n, ast.Return)]
+                    if irets and all(isinstance(r.value, ast.Call) and isinstance(r.value.func, ast.Name) and r.value.func.id in fac.params
+                                     for r in irets):
+                        return all(self._is_fresh_returning_callable(x) for x in a.args)
         return False
 
     def _call_local(self, nm: str, call: ast.Call, args, kws) -> Prov:
